@@ -315,6 +315,34 @@ def run(tier):
     # R6 siblings
     import c19
     c19.sibling_vmresult_mappers(fx, ck, "R6.mapper-siblings")
+    # ---------------- R10 a dead run takes its ledger with it
+    import exits as E10
+    ck.rule("R10.disposer-clears-ledger", "the run disposer (the function that resets active_vm and wait_graph) empties pending_orders, cancelled_orders and order_responses: "
+            "what a failed or abandoned run issued, cancelled or was answered is never reported by the next run", floor=3)
+    for p10, f10 in sorted(fx.fns.items()):
+        if f10.derived or f10.closure or not p10.startswith(INTERP + "::"):
+            continue
+        w10, cleared = set(), set()
+        for bl in f10.blocks:
+            for s_ in bl["s"]:
+                if s_[0] == "a":
+                    for a_, v_, n_ in F.place_fields(s_[1]):
+                        if a_ == INTERP:
+                            w10.add(n_)
+        if not {"active_vm", "wait_graph"} <= w10:
+            continue
+        for bi, t in f10.calls():
+            if (t[1].get("d") or "").split("::")[-1] in ("clear", "take", "drain") and t[2] and t[2][0][0] in ("c", "m"):
+                fl = E10.field_of_ref(f10, t[2][0][1][0])
+                if fl and fl[0] == INTERP:
+                    cleared.add(fl[2])
+        for fld in ("pending_orders", "cancelled_orders", "order_responses"):
+            ok10 = fld in cleared or fld in w10
+            ck.instance("R10.disposer-clears-ledger", "%s empties %s" % (p10, fld), F.short_span(f10.span), ok=ok10)
+            if not ok10:
+                ck.finding("R10.disposer-clears-ledger", "R10.disposer-clears-ledger/%s/%s" % (p10, fld), F.short_span(f10.span),
+                           "`%s` drops a failed or abandoned run but leaves `%s` as it was: the first suspension of the next program reports the dead run's entries to the host "
+                           "(`[{n:1},{n:2}].map(order); throw ..` then a run with one order: Suspended pending=[1,2,3])" % (p10, fld))
     # ---------------- R9 the countdown of a combinator starts at the number of handlers attached
     import countdown
     ck.rule("R9.countdown-sized-by-attach-loop", "a Cell<usize> countdown shared (through an Rc cloned in a loop) by the handlers of a combinator starts at the len() of the collection "
